@@ -11,6 +11,7 @@ unchanged.
 from dsim import gen, pipe
 from dsim import refmodel as R
 from dsim.actors import read_all
+from dsim.actors import STREAM_KINDS
 from dsim.world import World, apply_faults
 
 ID = 'C12'
@@ -165,8 +166,7 @@ def execute(scn, L):
         return out
 
     bs = scn.get('block_size')
-    sk = scn.get('stream') if scn.get('stream') in (
-        'sim', 'bytesio', 'buffered') else 'sim'
+    sk = scn.get('stream') if scn.get('stream') in STREAM_KINDS else 'sim'
     sx = scn.get('stream_extras') or {}
     skw = {'prefix': sx.get('prefix', 0) if isinstance(sx.get('prefix', 0),
                                                       int) else 0,
